@@ -109,7 +109,7 @@ func checkC15(r *core.Run) {
 				r.Sites++
 				a := ""
 				if len(cp.Call.Args) == 1 {
-					a = origin(f, cp.Call.Args[0], 3)
+					a = originVia(f, cp.Fn, cp.Call.Args[0], 3)
 				}
 				r.Check(strings.HasSuffix(a, ".BranchType") && strings.Contains(a, ".Body.(type)"), "C15.route", key+" -> GetResourceManager(request.BranchType)", w.Pos(cp.Call.Pos()), a, "the resource manager is chosen by "+a+", not by the request's branch type")
 			case inSet("action", cp.Tags...):
@@ -118,9 +118,13 @@ func checkC15(r *core.Run) {
 				r.Check(!cp.InLoop && !cp.Before.Maybe("action"), "C15.once", key+" -> "+ps.inbound+" once", w.Pos(cp.Call.Pos()), "one manager call per request", "the manager is called more than once per request")
 				// the BranchResource handed over echoes the request
 				if len(cp.Call.Args) == 2 {
-					if cl := findCompositeLit(f, cp.Call.Args[1]); cl != nil {
+					at := cp.Fn
+					if at == nil {
+						at = f
+					}
+					if cl := findCompositeLit(at, cp.Call.Args[1]); cl != nil {
 						for fld, want := range map[string]string{"Xid": "Xid", "BranchId": "BranchId", "ResourceId": "ResourceId", "ApplicationData": "ApplicationData"} {
-							o := origin(f, litField(cl, fld), 4)
+							o := originVia(f, at, litField(cl, fld), 4)
 							r.Sites++
 							r.Check(strings.HasSuffix(o, ".Body.(type)."+want), "C15.echo", key+" BranchResource."+fld+" from the request", w.Pos(cl.Pos()), o, "BranchResource."+fld+" derives from "+o+", not from the request's "+want)
 						}
@@ -131,7 +135,7 @@ func checkC15(r *core.Run) {
 				r.Sites++
 				r.Check(!cp.InLoop && !cp.Before.Maybe("respond") && cp.Before.Has("ok:action"), "C15.once", key+" -> SendAsyncResponse once, after the manager returned a status", w.Pos(cp.Call.Pos()), "one response, only on the manager's nil-error path", "a response can be sent twice, in a loop, or without the manager having returned a status")
 				if len(cp.Call.Args) == 2 {
-					id := origin(f, cp.Call.Args[0], 3)
+					id := originVia(f, cp.Fn, cp.Call.Args[0], 3)
 					r.Check(rpcParam != nil && id == "param:"+rpcParam.Name()+".ID", "C15.echo", key+" reply id is the request's message id", w.Pos(cp.Call.Pos()), id, "the reply is addressed with "+id+" instead of the incoming message's ID")
 					cl := findCompositeLit(f, cp.Call.Args[1])
 					if cl == nil {
@@ -156,13 +160,27 @@ func checkC15(r *core.Run) {
 		})
 		sp2 := &flow.Spec{W: w, Depth: 0, Classify: sp.Classify}
 		sp2.Visit = func(pkg *packages.Package, n ast.Node, st *flow.State) {
-			as, ok := n.(*ast.AssignStmt)
-			if !ok || len(as.Rhs) != 1 {
-				return
-			}
-			if c := core.ConstObj(info, as.Rhs[0]); c != nil && c.Name() == "ResultCodeSuccess" {
-				r.Sites++
-				r.Check(st.Has("ok:action"), "C15.truth", key+" ResultCodeSuccess only after the manager succeeded", w.Pos(as.Pos()), "nil-error path", "ResultCodeSuccess is set on a path where the manager's error is not known nil")
+			// every place the success code is used as a value (assigned, or put into a literal), here or in a
+			// helper of the package analysed in this context; comparisons do not count
+			var vals []ast.Expr
+			ast.Inspect(n, func(m ast.Node) bool {
+				switch x := m.(type) {
+				case *ast.FuncLit:
+					return false
+				case *ast.AssignStmt:
+					vals = append(vals, x.Rhs...)
+				case *ast.KeyValueExpr:
+					vals = append(vals, x.Value)
+				case *ast.ValueSpec:
+					vals = append(vals, x.Values...)
+				}
+				return true
+			})
+			for _, v := range vals {
+				if c := core.ConstObj(info, v); c != nil && c.Name() == "ResultCodeSuccess" {
+					r.Sites++
+					r.Check(st.Has("ok:action"), "C15.truth", key+" ResultCodeSuccess only after the manager succeeded", w.Pos(v.Pos()), "nil-error path", "ResultCodeSuccess is set on a path where the manager's error is not known nil")
+				}
 			}
 		}
 		sp2.Analyze(f)
@@ -210,33 +228,64 @@ func checkC15(r *core.Run) {
 
 func c15Response(r *core.Run, f *core.FuncInfo, cl *ast.CompositeLit, key string) {
 	w := r.W
-	// flatten nested literals
-	fields := map[string]ast.Expr{}
-	var walk func(c *ast.CompositeLit)
-	walk = func(c *ast.CompositeLit) {
+	// flatten nested literals; a nested part may come from a constructor helper of the package
+	// (AbstractBranchEndResponse: newBranchEndResponse(xid, id, status, err)): its literal is read with the
+	// helper's parameters replaced by the arguments
+	fields := map[string]string{}
+	originFollowHelpers = true
+	defer func() { originFollowHelpers = false }()
+	var walk func(c *ast.CompositeLit, in *core.FuncInfo, tr func(string) string, depth int)
+	walk = func(c *ast.CompositeLit, in *core.FuncInfo, tr func(string) string, depth int) {
 		for _, el := range c.Elts {
 			kv, ok := el.(*ast.KeyValueExpr)
 			if !ok {
 				continue
 			}
 			k, _ := kv.Key.(*ast.Ident)
-			if inner, ok := ast.Unparen(kv.Value).(*ast.CompositeLit); ok {
-				walk(inner)
+			val := ast.Unparen(kv.Value)
+			if inner := findCompositeLit(in, val); inner != nil {
+				walk(inner, in, tr, depth)
 				continue
 			}
+			if call, ok := val.(*ast.CallExpr); ok && depth > 0 {
+				if h := w.Info(core.Callee(in.Pkg.TypesInfo, call)); h != nil && h.Pkg == in.Pkg && h.Decl.Body != nil && h != in {
+					var rets []*ast.ReturnStmt
+					ast.Inspect(h.Decl.Body, func(n ast.Node) bool {
+						if _, isLit := n.(*ast.FuncLit); isLit {
+							return false
+						}
+						if rs, ok := n.(*ast.ReturnStmt); ok {
+							rets = append(rets, rs)
+						}
+						return true
+					})
+					if len(rets) == 1 && len(rets[0].Results) == 1 {
+						if inner := findCompositeLit(h, rets[0].Results[0]); inner != nil {
+							walk(inner, h, func(o string) string { return tr(substParams(o, h, call, in, 4)) }, depth-1)
+							continue
+						}
+					}
+				}
+			}
 			if k != nil {
-				fields[k.Name] = kv.Value
+				fields[k.Name] = tr(origin(in, kv.Value, 4))
 			}
 		}
 	}
-	walk(cl)
+	walk(cl, f, func(o string) string { return o }, 2)
 	for fld, want := range map[string]string{"Xid": ".Body.(type).Xid", "BranchId": ".Body.(type).BranchId"} {
 		r.Sites++
-		o := origin(f, fields[fld], 4)
+		o := fields[fld]
+		if o == "" {
+			o = "<none>"
+		}
 		r.Check(strings.HasSuffix(o, want), "C15.echo", key+" response."+fld+" from the request", w.Pos(cl.Pos()), o, "the response's "+fld+" derives from "+o+", not from the request")
 	}
 	r.Sites++
-	o := origin(f, fields["BranchStatus"], 4)
+	o := fields["BranchStatus"]
+	if o == "" {
+		o = "<none>"
+	}
 	r.Check(strings.HasPrefix(o, "call:pkg/rm.(ResourceManagerInbound).") && strings.HasSuffix(o, "#0"), "C15.echo", key+" response.BranchStatus is the manager's result", w.Pos(cl.Pos()), o, "the response's BranchStatus derives from "+o+", not from the status the manager returned")
 }
 
